@@ -1,0 +1,66 @@
+//go:build verif
+
+package app
+
+import (
+	"time"
+
+	nodestate "github.com/yandex/mysync/internal/app/node_state"
+	"github.com/yandex/mysync/internal/config"
+	"github.com/yandex/mysync/internal/log"
+	"github.com/yandex/mysync/internal/mysql"
+	"github.com/yandex/mysync/internal/mysql/gtids"
+)
+
+// Thin exported wrappers around unexported pure helpers, used by the verification harness only.
+
+// VerifPos is the exported mirror of nodePosition.
+type VerifPos struct {
+	Host     string
+	GTIDs    string
+	Lag      float64
+	Priority int64
+}
+
+func verifPositions(in []VerifPos) []nodePosition {
+	out := make([]nodePosition, 0, len(in))
+	for _, p := range in {
+		out = append(out, nodePosition{p.Host, gtids.ParseGtidSet(p.GTIDs), p.Lag, p.Priority})
+	}
+	return out
+}
+
+// VerifFindMostRecent calls findMostRecentNodeAndDetectSplitbrain.
+func VerifFindMostRecent(in []VerifPos) (string, string, bool) {
+	host, set, split := findMostRecentNodeAndDetectSplitbrain(verifPositions(in))
+	s := ""
+	if set != nil {
+		s = set.String()
+	}
+	return host, s, split
+}
+
+// VerifMostDesirable calls getMostDesirableNode, optionally after filterOutNodeFromPositions.
+func VerifMostDesirable(logger *log.Logger, in []VerifPos, from string, maxLag time.Duration) (string, error) {
+	pos := verifPositions(in)
+	if from != "" {
+		pos = filterOutNodeFromPositions(pos, from)
+	}
+	return getMostDesirableNode(logger, pos, maxLag)
+}
+
+// VerifFindBestStreamFrom calls (*App).findBestStreamFrom on a bare App.
+func VerifFindBestStreamFrom(cfg *config.Config, logger *log.Logger, host string, clusterState map[string]*nodestate.NodeState,
+	master string, topology map[string]mysql.CascadeNodeConfiguration) string {
+	app := &App{config: cfg, logger: logger}
+	node, _ := mysql.NewNode(cfg, logger, host)
+	return app.findBestStreamFrom(node, clusterState, master, topology)
+}
+
+// VerifGetAvailabilityZone calls getAvailabilityZone.
+func VerifGetAvailabilityZone(fqdn, sep string) string { return getAvailabilityZone(fqdn, sep) }
+
+// VerifCalcLagBytes calls calcLagBytes.
+func VerifCalcLagBytes(binlogs []mysql.Binlog, file string, pos int64) int64 {
+	return calcLagBytes(binlogs, file, pos)
+}
